@@ -1,5 +1,9 @@
 #!/usr/bin/env python3
-"""Driver: verif.py setup | check <ID> [--tier quick|thorough] | list"""
+"""Driver: verif.py setup | check <ID> [--tier quick|thorough] | extra <name> [--tier quick|thorough]
+
+`extra` runs checks of specifications that go beyond the listed properties (not registered in MANIFEST.json):
+  readcanary   readCanaryingBlobAccess (ReadCanary.tla, CanaryContractTrace.tla)
+"""
 import importlib, os, sys, time, traceback
 
 sys.path.insert(0, os.path.dirname(os.path.abspath(__file__)))
@@ -45,6 +49,20 @@ def main():
         finally:
             vlib.cleanup()
         log("check %s tier=%s rc=%s wall=%.1fs" % (pid, tier, rc, time.time() - t0))
+        return rc
+    if cmd == "extra":
+        name = sys.argv[2]
+        tier = sys.argv[sys.argv.index("--tier") + 1] if "--tier" in sys.argv else "quick"
+        import fam_extra
+        t0 = time.time()
+        try:
+            rc = fam_extra.check(name, tier)
+        except Broken as e:
+            print("BROKEN extra=%s %s" % (name, str(e)[:6000]))
+            rc = 2
+        finally:
+            vlib.cleanup()
+        log("extra %s tier=%s rc=%s wall=%.1fs" % (name, tier, rc, time.time() - t0))
         return rc
     print(__doc__)
     return 2
